@@ -46,7 +46,7 @@ ASSUMPTIONS = [
 ]
 REQUIRED_MONITORS = ["embed.jacobian", "vgbs.A", "A_to_cov", "vgbs.moments", "prob_sample.pnr", "prob_sample.threshold",
                      "normalisation.pnr", "normalisation.threshold", "KL.grad.pnr", "Stochastic.grad.pnr",
-                     "Stochastic.reparametrisation", "vgbs.samples", "prob_orbit_exact", "prob_event_exact",
+                     "Stochastic.reparametrisation", "vgbs.samples", "prob_orbit_exact", "prob_event_exact", "feature_vectors(exact)",
                      "prob_mc.bounds", "gbs_params", "duschinsky", "franck_condon", "vibronic.state",
                      "TimeEvolution", "dynamics.conservation", "dynamics.premeasure-state", "vibronic.sample-state",
                      "marginals"]
@@ -628,6 +628,21 @@ def run_similarity(case, rep, V):
     if abs(pN - PN) > 1e-8:
         V("prob_event_exact", "not-total-photon-distribution",
           "P(event of %d photons, unlimited per mode) = %.10g but P(N = %d) = %.10g" % (N, pN, N, PN))
+
+    # ---- feature vectors (exact mode) are the lists of these probabilities, in the order of the request ----------------------
+    rep.monitor("feature_vectors(exact)")
+    o2 = [1] * min(max(1, sum(orbit) - 1), n)
+    p2 = sum(rp.fock_prob(mu, Vc, tuple(m)) for m in multiset_permutations(o2 + [0] * (n - len(o2))))
+    fv = similarity.feature_vector_orbits(g, [o2, orbit], n_mean=case["n_mean"], loss=loss)
+    if len(fv) != 2 or abs(fv[0] - p2) > 1e-8 or abs(fv[1] - pref) > 1e-8:
+        V("feature_vector_orbits", "not-the-orbit-probabilities", "orbits [%s, %s]: returned %s, the state has [%.10g, %.10g]" % (
+            o2, orbit, np.round(fv, 10).tolist(), p2, pref))
+    N2 = max(0, N - 1)
+    pe2 = sum(rp.fock_prob(mu, Vc, pat) for pat in rp.patterns_with_total(n, N2, maxc))
+    fe = similarity.feature_vector_events(g, [N2, N], maxc, n_mean=case["n_mean"], loss=loss)
+    if len(fe) != 2 or abs(fe[0] - pe2) > 1e-8 or abs(fe[1] - pe_ref) > 1e-8:
+        V("feature_vector_events", "not-the-event-probabilities", "events [%d, %d] (<= %d per mode): returned %s, the state has [%.10g, %.10g]" % (
+            N2, N, maxc, np.round(fe, 10).tolist(), pe2, pe_ref))
 
     rep.monitor("prob_mc.bounds")
     np.random.seed(case["mc_seed"])
